@@ -248,6 +248,12 @@ def check(ctx, rep):
              "entry by bytes that are not UTF-8 still equals that entry's selector, so hiding and merging work for it", floor=1)
     rep.rule("R07p", "= R10f: the selector filter lets ordinary names through (one character long, with dots or blanks inside, starting with a dot, "
              "not UTF-8) - a name it refuses drops out of every listing and cannot be fetched", floor=1)
+    rep.rule("R07t", "= R08g: the selector of a link-file block is the one its Path= names (trailing slash dropped for ./ and ~/ paths too) - a block "
+             "whose selector differs from the walked entry's hides or renames nothing and shows up as a second entry", floor=5)
+    from .c08 import linkfile_text_obligations
+    umn_t = ctx.cls("handlers.UMN.UMNDirHandler")
+    if umn_t is not None:
+        linkfile_text_obligations(ctx, rep, umn_t, "R07t")
     rep.rule("R07s", "= R12f: the file-system view's predicates answer False for what cannot be looked at (name too long, directory not searchable) "
              "instead of raising - the side-file probes of a long but valid name must not drop it from the listing", floor=1)
     from .c12 import vfs_predicate_obligations
